@@ -271,6 +271,50 @@ def _find_stack_context_managers(ctx) -> set:
                          for t in walk_no_nested(f))
         if len(pushes) == 1 and len(pops) == 1 and in_finally:
             out.add(dotted.split(".")[-1])
+    out |= _find_stack_cm_classes(ctx)
+    return out
+
+
+_CM_CLASS_METHODS: set = set()  # dotted names of __enter__/__exit__ of recognised context-manager classes
+
+
+def _find_stack_cm_classes(ctx) -> set:
+    """classes whose __enter__ appends exactly once to expand_stack and whose __exit__ pops exactly once, either
+    unconditionally or under `<exc_type parameter> is None` (the entry is then left behind only while an exception
+    propagates, exactly like a bare append ... pop pair): `with Cls(...):` is a push at entry and a pop at the normal exit.
+    A class that pushes in __enter__ with any other __exit__ shape is outside the supported fragment."""
+    out = set()
+    _CM_CLASS_METHODS.clear()
+    for mname, m in ctx.index.modules.items():
+        for cls in [n for n in ast.walk(m.tree) if isinstance(n, ast.ClassDef)]:
+            meths = {f.name: f for f in cls.body if isinstance(f, ast.FunctionDef)}
+            en, ex = meths.get("__enter__"), meths.get("__exit__")
+            if en is None or ex is None:
+                continue
+            pushes = [c for c in walk_no_nested(en) if isinstance(c, ast.Call) and _stack_call(c) == "append"]
+            epops = [c for c in walk_no_nested(en) if isinstance(c, ast.Call) and _stack_call(c) == "pop"]
+            pops = [c for c in walk_no_nested(ex) if isinstance(c, ast.Call) and _stack_call(c) == "pop"]
+            xpush = [c for c in walk_no_nested(ex) if isinstance(c, ast.Call) and _stack_call(c) == "append"]
+            if not pushes and not pops:
+                continue
+            good = len(pushes) == 1 and not epops and len(pops) == 1 and not xpush and any(
+                isinstance(st, ast.Expr) and st.value is pushes[0] for st in en.body)
+            if good:
+                pop = pops[0]
+                exc_param = ex.args.args[1].arg if len(ex.args.args) > 1 else None
+                top = [st for st in ex.body if isinstance(st, ast.Expr) and st.value is pop]
+                guarded = [st for st in ex.body if isinstance(st, ast.If) and not st.orelse and len(st.body) == 1
+                           and isinstance(st.body[0], ast.Expr) and st.body[0].value is pop
+                           and exc_param is not None and unparse(st.test) == "{} is None".format(exc_param)]
+                good = bool(top) or bool(guarded)
+            if not good:
+                raise AnalysisError("class {}.{} pushes/pops expand_stack in __enter__/__exit__ in a shape outside the supported "
+                                    "fragment (one append in __enter__, one pop in __exit__, unconditional or under "
+                                    "`exc_type is None`)".format(mname, cls.name))
+            out.add(cls.name)
+            for dotted, mm, f in ctx.index.all_functions():
+                if f is en or f is ex:
+                    _CM_CLASS_METHODS.add(dotted)
     return out
 
 
@@ -313,7 +357,7 @@ def rule_r1(ctx) -> RuleResult:
     _STACK_CMS.clear()
     _STACK_CMS.update(_find_stack_context_managers(ctx))
     rr.instances["stack_context_managers"] = sorted(_STACK_CMS)
-    pushers = {dotted for dotted, m, f in ctx.index.all_functions() if _touches_stack(f)}
+    pushers = {dotted for dotted, m, f in ctx.index.all_functions() if _touches_stack(f) and dotted not in _CM_CLASS_METHODS}
     push_reach = frozenset(cg.reaches(pushers))
     closure = cg.closure(["core.Wtp.expand", "core.Wtp.parse"])
     fns = []
